@@ -17,15 +17,7 @@ PROP = {
         {"name": "dprint_buf", "quick": 300000, "thorough": 3000000, "maxlen": 32},
     ],
     "fuzz": [{"name": "ato", "secs": 45, "maxlen": 40}, {"name": "toa", "secs": 30, "maxlen": 32}],
-    # the parsers once more with plain char unsigned, as on the ARM / RISC-V targets the library is written for
-    "variants": [{
-        "name": "uchar",
-        "harness": [{"src": "V:harness/C07.cpp", "flags": ["-funsigned-char", "-DC07_VARIANT_UCHAR"]}],
-        "units": [{"src": "R:igris/util/numconvert.c", "opt": "-O1", "flags": ["-funsigned-char"]},
-                  {"src": "R:igris/dprint/dprint_func_impl.c", "flags": ["-funsigned-char"]}]
-                 + vpdriver.libc_units(["stdlib/itoa.c", "stdlib/atol.c"], ["-funsigned-char"]),
-        "targets": [{"name": "ato_uchar", "quick": 1000000, "thorough": 8000000, "maxlen": 40}],
-    }],
+    "uchar": ["ato", "ato_empty", "toa", "libc_itoa"],
 }
 
 TEXT = {
